@@ -62,17 +62,26 @@ func GetCache(cacheFile string) MemCache {
 		err error
 	)
 
-	b, err := ioutil.ReadFile(cacheFile)
-	if err == nil {
-		err = json.Unmarshal(b, &mem)
-		if err == nil && mem.ShardNo == shardNo {
-			return mem.Cache
-		}
-	}
-
 	m := make(MemCache, shardNo)
 	for i := 0; i < shardNo; i++ {
 		m[i] = &TemplatesShard{Templates: make(map[uint32]Data)}
+	}
+
+	b, err := ioutil.ReadFile(cacheFile)
+	if err == nil {
+		err = json.Unmarshal(b, &mem)
+		if err == nil && mem.ShardNo == shardNo && len(mem.Cache) == shardNo {
+			// the file may have been cut short or edited: take the saved
+			// templates over into well-formed shards instead of trusting its shape
+			for i, shard := range mem.Cache {
+				if shard == nil {
+					continue
+				}
+				for key, data := range shard.Templates {
+					m[i].Templates[key] = data
+				}
+			}
+		}
 	}
 
 	return m
